@@ -38,6 +38,7 @@ type op struct {
 	g          int
 	add        int
 	out        int
+	gated      bool // ThenAccept: the callback records, signals "started" and blocks until released
 }
 
 type runrec struct {
@@ -82,6 +83,10 @@ type world struct {
 	clock atomic.Int64
 	mu    sync.Mutex
 	cur   map[uint64]*result // goroutine id -> call it is executing
+
+	started     chan struct{} // gated scenarios: closed when the gated callback is entered
+	startedOnce sync.Once
+	release     chan struct{} // gated scenarios: closed to let the gated callback return
 }
 
 func newWorld(nfut int, outs map[int]bool) *world {
@@ -144,7 +149,15 @@ func (w *world) execAfter(r *result, gate func()) {
 	spin(r.delay)
 	switch o.kind {
 	case kAccept:
-		w.futs[o.f].ThenAccept(func(v int) { w.log(o.f, o.c, v) })
+		if o.gated {
+			w.futs[o.f].ThenAccept(func(v int) {
+				w.log(o.f, o.c, v)
+				w.startedOnce.Do(func() { close(w.started) })
+				<-w.release
+			})
+		} else {
+			w.futs[o.f].ThenAccept(func(v int) { w.log(o.f, o.c, v) })
+		}
 	case kComplete:
 		w.futs[o.f].Complete(o.v)
 	case kCompose:
@@ -555,6 +568,124 @@ func runConcurrent(cp concProgram) ([]*result, bool) {
 	return rs, hung
 }
 
+
+// ---------- gated scenarios: a second completion while a callback of the first is in flight ----------
+
+type gatedProgram struct {
+	prefix []op // registrations before completion; exactly one of them is gated
+	first  op   // Complete(0, v1), on its own goroutine
+	window []op // calls made, one goroutine each, while the gated callback is blocked
+	post   []op // calls made after everything returned
+}
+
+func gatedGen(r *lib.Rng) gatedProgram {
+	var g gatedProgram
+	tag := uint64(0)
+	acc := func(gated bool) op { tag++; return op{kind: kAccept, f: 0, c: tag, gated: gated} }
+	nPre := r.Range(1, 3)
+	gatedAt := r.Intn(nPre)
+	for i := 0; i < nPre; i++ {
+		g.prefix = append(g.prefix, acc(i == gatedAt))
+	}
+	v1 := r.Range(1, 9)
+	other := func() int {
+		v := r.Range(1, 9)
+		if v == v1 {
+			v = v1 + 10
+		}
+		return v
+	}
+	g.first = op{kind: kComplete, f: 0, v: v1}
+	g.window = []op{acc(false), {kind: kComplete, f: 0, v: other()}}
+	if r.Chance(1, 2) {
+		g.window = append(g.window, acc(false))
+	}
+	if r.Chance(1, 3) {
+		g.window = append(g.window, op{kind: kComplete, f: 0, v: other()})
+	}
+	for i, j := range r.Perm(len(g.window)) { // launch order
+		g.window[i], g.window[j] = g.window[j], g.window[i]
+	}
+	g.post = []op{acc(false)}
+	if r.Chance(1, 2) {
+		g.post = append(g.post, op{kind: kComplete, f: 0, v: other()}, acc(false))
+	}
+	return g
+}
+
+// runGated is deterministic: the first completion's gated callback is blocked on a channel; every
+// window call is started on its own goroutine and the harness waits until it has returned or is
+// parked on the future's mutex before starting the next; then the callback is released.
+func runGated(g gatedProgram) ([]*result, bool) {
+	w := newWorld(1, nil)
+	w.started = make(chan struct{})
+	w.release = make(chan struct{})
+	var rs []*result
+	for _, o := range g.prefix {
+		r := &result{o: o}
+		w.exec(r)
+		rs = append(rs, r)
+	}
+	type running struct {
+		r    *result
+		done chan struct{}
+		gid  uint64
+	}
+	launch := func(o op, thread int) running {
+		x := running{r: &result{o: o, thread: thread}, done: make(chan struct{})}
+		gidc := make(chan uint64, 1)
+		go func() { gidc <- goid(); w.exec(x.r); close(x.done) }()
+		x.gid = <-gidc
+		return x
+	}
+	settle := func(x running) {
+		deadline := time.After(3 * time.Second)
+		for {
+			select {
+			case <-x.done:
+				return
+			case <-deadline:
+				return
+			case <-time.After(3 * time.Millisecond):
+				if blockedOnMutex(x.gid) {
+					return
+				}
+			}
+		}
+	}
+	all := []running{launch(g.first, 1)}
+	select {
+	case <-w.started:
+	case <-time.After(5 * time.Second):
+	}
+	for i, o := range g.window {
+		x := launch(o, i+2)
+		settle(x)
+		all = append(all, x)
+	}
+	close(w.release)
+	hung := false
+	for _, x := range all {
+		select {
+		case <-x.done:
+			rs = append(rs, x.r)
+		case <-time.After(10 * time.Second):
+			hung = true
+			w.mu.Lock()
+			rs = append(rs, &result{o: x.r.o, runs: append([]runrec(nil), x.r.runs...), hung: true, inv: x.r.inv, res: 1 << 40, thread: x.r.thread})
+			w.mu.Unlock()
+		}
+	}
+	if !hung {
+		for _, o := range g.post {
+			r := &result{o: o}
+			w.exec(r)
+			rs = append(rs, r)
+		}
+	}
+	return rs, hung
+}
+
 func overlaps(rs []*result) bool {
 	for i, a := range rs {
 		for j, b := range rs {
@@ -571,7 +702,7 @@ func main() {
 	rng := lib.NewRng(f.Seed)
 	out := lib.NewOut("C42", f)
 	out.Imports = "From Verif Require Import Base.Lin Model.Future.\n"
-	out.Rule = "three streams over the real future.Future[int]: (seq) 2..12 random ThenAccept/Complete/ThenCompose calls on 1..7 futures, composes with f<g<out, repeated tags and repeated completions, closing probe registrations; (reentrant) same but the composed function may return a future whose mutex is held, so calls hang (3 s watchdog per call); (conc) 2..4 goroutines with 1..3 calls each after a sequential prefix, compose graph restricted to linear chains, logical-clock stamps. Non-trivial: seq/reentrant = at least one callback ran and the history has a ThenCompose, a repeated Complete of one future, or a hang; conc = two calls of different goroutines overlapped in time. Distinct = distinct Coq case terms."
+	out.Rule = "three streams over the real future.Future[int]: (seq) 2..12 random ThenAccept/Complete/ThenCompose calls on 1..7 futures, composes with f<g<out, repeated tags and repeated completions, closing probe registrations; (reentrant) same but the composed function may return a future whose mutex is held, so calls hang (3 s watchdog per call); (conc) 2..4 goroutines with 1..3 calls each after a sequential prefix, compose graph restricted to linear chains, logical-clock stamps. (gated, deterministic) 1..3 callbacks registered on one future, one of them blocks on a channel; Complete(v1) runs on its own goroutine and enters that callback; while it is blocked further registrations and Complete calls with other values are started one goroutine each (the harness waits until each has returned or is parked on the mutex), then the callback is released and more registrations/completions follow; judged on the observed (callback, value) pairs (one value per future, each callback once) and for linearizability. Non-trivial: gated = always; seq/reentrant = at least one callback ran and the history has a ThenCompose, a repeated Complete of one future, or a hang; conc = two calls of different goroutines overlapped in time. Distinct = distinct Coq case terms."
 
 	type job struct {
 		kind string
@@ -593,6 +724,18 @@ func main() {
 			nfut, outs, ops := seqProgram(r, true)
 			rs := runSequential(nfut, outs, ops)
 			return seqCase("reentrant", nfut, rs)
+		}})
+	}
+	for i := 0; i < f.Count(12); i++ {
+		r := rng.Fork()
+		jobs = append(jobs, job{"gated", func() (string, any, bool, []string) {
+			g := gatedGen(r)
+			rs, hung := runGated(g)
+			tags := []string{"kind=gated", fmt.Sprintf("window=%d", len(g.window))}
+			if hung {
+				tags = append(tags, "gated-hang")
+			}
+			return caseTerm(1, true, rs), caseDesc("gated", 1, rs), true, tags
 		}})
 	}
 	for i := 0; i < nConc; i++ {
